@@ -89,4 +89,44 @@ theorem write_then_check_ok (file : Option (List Char)) (output : List Char) :
   | none => simp
   | some e => by_cases h : lines e = lines output <;> simp [h]
 
+/-! ### the file as it is on disk: bytes that may not be UTF-8 (`fs::read_to_string` then fails with `InvalidData`,
+the tool reports the error and stops: nothing is compared, nothing is written) -/
+
+inductive FileSt where
+  | missing
+  | unreadable (bytes : List Nat)      -- not valid UTF-8
+  | text (content : List Char)
+deriving Repr, DecidableEq
+
+def FileSt.ofOpt : Option (List Char) → FileSt
+  | none => .missing
+  | some c => .text c
+
+def cliRunFile (file : FileSt) (output : List Char) (check : Bool) : Outcome × FileSt :=
+  match file with
+  | .unreadable b => (.failed, .unreadable b)
+  | .missing => let r := cliRun none output check; (r.1, FileSt.ofOpt r.2)
+  | .text c => let r := cliRun (some c) output check; (r.1, FileSt.ofOpt r.2)
+
+theorem checkFile_never_writes (file : FileSt) (output : List Char) : (cliRunFile file output true).2 = file := by
+  cases file with
+  | unreadable b => rfl
+  | missing => simp [cliRunFile, check_never_writes, FileSt.ofOpt]
+  | text c => simp [cliRunFile, check_never_writes, FileSt.ofOpt]
+
+/-- `--check` succeeds exactly on a readable file holding the output up to line endings -/
+theorem checkFile_ok_iff (file : FileSt) (output : List Char) :
+    (cliRunFile file output true).1 = .ok ↔ ∃ existing, file = .text existing ∧ lines existing = lines output := by
+  cases file with
+  | unreadable b => simp [cliRunFile]
+  | missing =>
+    have := check_ok_iff none output
+    simp only [cliRunFile]
+    rw [this]; simp
+  | text c =>
+    have := check_ok_iff (some c) output
+    simp only [cliRunFile]
+    rw [this]; simp
+
+
 end Logos.Strip
